@@ -35,7 +35,7 @@ class Pk:
         self.labels = {}  # key -> offset (for pointers)
         # header
         self.any(2)
-        self.cells.append(('c', 0x80 if qr else 0))
+        self.cells.append(('mask', 0x80, 0x80 if qr else 0))
         self.any(1)
         for _ in range(8):
             self.c(0)  # counts, patched in finish()
@@ -316,24 +316,53 @@ def build_valid():
     p.rr(1, [('ptr', 'p0')], T_A, rd_a)
     reg(p, 'valid', 'ptr', 'chain')
 
-    p = Pk("r_nocomp", desc="pointer-free response: A, NS, MX, SOA and OPT, repeated suffixes (compressible)")
-    p.question([('a', 3), ('a', 2), 0])
-    p.rr(1, [('a', 3), ('a', 2), 0], T_A, rd_a)
-    p.rr(2, [('a', 2), 0], T_NS, rd_name([('a', 2), ('a', 2), 0]))
-    p.rr(3, [('a', 2), ('a', 2), 0], T_A, rd_a)
+    p = Pk("r_nocomp", desc="pointer-free response: A, NS, A and OPT last; repeated suffixes with mixed-case duplicates")
+    p.question([b"www", b"Ex", b"co", 0])
+    p.rr(1, [b"WWW", b"ex", b"CO", 0], T_A, rd_a)
+    p.rr(2, [b"ex", b"co", 0], T_NS, rd_name([b"ns", b"eX", b"cO", 0]))
+    p.rr(3, [b"ns", b"ex", b"co", 0], T_A, rd_a)
     p.add_opt([1])
     reg(p, 'valid', 'nocomp')
 
-    p = Pk("r_nocomp2", desc="pointer-free response: CNAME chain and MX, nested suffixes")
-    p.question([('a', 1), ('a', 2), ('a', 2), 0])
-    p.rr(1, [('a', 1), ('a', 2), ('a', 2), 0], T_CNAME, rd_name([('a', 2), ('a', 2), 0]))
-    p.rr(1, [('a', 2), ('a', 2), 0], T_MX, rd_mx([('a', 1), ('a', 2), ('a', 2), 0]))
+    p = Pk("r_nocomp2", desc="pointer-free response: CNAME and MX, nested suffixes (a suffix first seen inside an already shortened name)")
+    p.question([b"a", b"bb", b"cc", 0])
+    p.rr(1, [b"a", b"bb", b"cc", 0], T_CNAME, rd_name([b"x", b"bb", b"cc", 0]))
+    p.rr(1, [b"x", b"bb", b"cc", 0], T_MX, rd_mx([b"m", b"x", b"BB", b"cc", 0]))
+    p.rr(3, [b"m", b"x", b"bb", b"cc", 0], T_A, rd_a)
     reg(p, 'valid', 'nocomp')
 
-    p = Pk("r_nocomp_soa", desc="pointer-free response: SOA with two names, A")
-    p.question([('a', 2), ('a', 2), 0])
-    p.rr(2, [('a', 2), ('a', 2), 0], T_SOA, rd_soa([('a', 1), ('a', 2), ('a', 2), 0], [('a', 2), ('a', 2), 0]))
-    p.rr(3, [('a', 1), ('a', 2), ('a', 2), 0], T_A, rd_a)
+    p = Pk("r_nocomp_soa", desc="pointer-free response: SOA with two names in authority, A in additional")
+    p.question([b"zz", b"yy", 0])
+    p.rr(2, [b"zz", b"yy", 0], T_SOA, rd_soa([b"n", b"zz", b"yy", 0], [b"h", b"n", b"ZZ", b"yy", 0]))
+    p.rr(3, [b"n", b"zz", b"yy", 0], T_A, rd_a)
+    reg(p, 'valid', 'nocomp')
+
+    p = Pk("r_nocomp_optfirst", desc="pointer-free response: OPT first in the additional section, then an A record")
+    p.question([b"qq", b"rr", 0])
+    p.rr(1, [b"qq", b"rr", 0], T_A, rd_a)
+    p.add_opt([2])
+    p.rr(3, [b"k", b"qq", b"rr", 0], T_A, rd_a)
+    reg(p, 'valid', 'nocomp', 'optnotlast')
+
+    p = Pk("r_nocomp_optmid", desc="pointer-free response: A, OPT, AAAA in the additional section")
+    p.question([b"qq", b"rr", 0])
+    p.rr(3, [b"qq", b"rr", 0], T_A, rd_a)
+    p.add_opt()
+    p.rr(3, [b"j", b"qq", b"rr", 0], T_AAAA, rd_aaaa)
+    reg(p, 'valid', 'nocomp', 'optnotlast')
+
+    p = Pk("r_nocomp_short", desc="pointer-free response: suffixes of 1 and 2 bytes must not be pointed to (root, one-letter TLD)")
+    p.question([b"a", 0])
+    p.rr(1, [b"a", 0], T_NS, rd_name([b"b", b"a", 0]))
+    p.rr(1, [0], T_NS, rd_name([b"b", b"a", 0]))
+    reg(p, 'valid', 'nocomp')
+
+    p = Pk("r_nocomp_dname", desc="pointer-free response: DNAME (never compressed), TXT, private type, PTR")
+    p.question([b"dd", b"ee", 0])
+    p.rr(1, [b"dd", b"ee", 0], T_DNAME, rd_name([b"dd", b"ee", 0]))
+    p.rr(1, [b"t", b"dd", b"ee", 0], T_TXT, rd_txt([3]))
+    p.rr(2, [b"dd", b"ee", 0], T_PTR, rd_name([b"p", b"dd", b"ee", 0]))
+    p.rr(3, [b"dd", b"ee", 0], T_PRIV, rd_opaque(2))
     reg(p, 'valid', 'nocomp')
 
     p = Pk("r_three_a", desc="response: three A records in the answer section (first/middle/last targets), compressed owners")
@@ -495,8 +524,13 @@ def build_long():
         reg(p, 'valid' if ok else 'hostile', 'long', 'chain16')
 
 
-def rust_cell(c, i=0, concrete_labels=False):
+def rust_cell(c, i=0, concrete_labels=False, sym_flags=False):
     k = c[0]
+    if k == 'mask' and not sym_flags:
+        # the solver's constant propagation does not see through (x & 0x7f) | 0x80: a symbolic
+        # QR-carrying byte makes every "is this a response" test symbolic. Concrete here (QR + RD);
+        # the other 7 bits are symbolic only in build_fl (header harnesses).
+        return "0x%02x" % (c[2] | 0x01)
     if k == 'c':
         return "0x%02x" % c[1]
     if k == 'any':
@@ -510,6 +544,98 @@ def rust_cell(c, i=0, concrete_labels=False):
     if k == 'mask':
         return "((s.u8() & 0x%02x) | 0x%02x)" % ((~c[1]) & 0xff, c[2])
     raise ValueError(c)
+
+
+def concrete_label_char(i):
+    return (ord('a') if i % 3 else ord('A')) + (i * 7) % 26
+
+
+def concrete_bytes(pk):
+    """the packet as built by build_cl with every symbolic non-label byte set to 0"""
+    out = []
+    for i, c in enumerate(pk.cells):
+        if c[0] == 'c':
+            out.append(c[1])
+        elif c[0] in ('lab', 'alpha'):
+            out.append(concrete_label_char(i))
+        elif c[0] == 'mask':
+            out.append(c[2] | 0x01)
+        else:
+            out.append(0)
+    return bytes(out)
+
+
+def expand_name(b, off):
+    labels = []
+    g = 0
+    while g < 300:
+        g += 1
+        l = b[off]
+        if l >= 0xc0:
+            off = ((l & 0x3f) << 8) | b[off + 1]
+            continue
+        if l == 0:
+            break
+        labels.append(bytes(b[off + 1:off + 1 + l]))
+        off += l + 1
+    return labels
+
+
+def wire(labels):
+    return b"".join(bytes([len(l)]) + l for l in labels) + b"\x00"
+
+
+def swapcase(bs):
+    return bytes((c ^ 0x20) if (65 <= c <= 90 or 97 <= c <= 122) else c for c in bs)
+
+
+RN = []  # rename cases
+
+
+def build_rename_cases():
+    byname = {p.name: p for p in SK}
+    tgt_short = wire([b"n", b"t"])
+    tgt_long = wire([b"renamed", b"target", b"zone"])
+    def case(name, sk, source, target, suffix, tier, what):
+        RN.append(dict(name=name, sk=sk, source=source, target=target, suffix=suffix, tier=tier, what=what))
+    for skn, tier in (('r_mx_soa', 'quick'), ('r_cname_chain', 'quick'), ('r_ns_add_optlast', 'quick'), ('r_optmid', 'quick'),
+                      ('r_nocomp2', 'rotate'), ('r_nocomp_soa', 'rotate'), ('r_a_aaaa', 'rotate'), ('q_plain', 'rotate'),
+                      ('r_ptr_ptr', 'rotate'), ('r_dname_txt_priv', 'rotate'), ('r_optfirst', 'rotate'), ('r_all_sections', 'rotate')):
+        pk = byname[skn]
+        b = concrete_bytes(pk)
+        q = expand_name(b, 12)
+        if len(q) < 2:
+            continue
+        full = wire(q)
+        suf = wire(q[1:])
+        t2 = 'quick' if tier == 'quick' else 'rotate'
+        case("%s_exact" % skn, skn, swapcase(full), tgt_long, False, 'rotate', "exact match of the question name (source in swapped case), longer target")
+        case("%s_sfx_long" % skn, skn, swapcase(suf), tgt_long, True, t2, "suffix match on the last %d labels (source in swapped case), longer target" % (len(q) - 1))
+        case("%s_sfx_short" % skn, skn, suf, tgt_short, True, 'rotate', "suffix match, shorter target")
+        case("%s_identity" % skn, skn, suf, suf, True, 'rotate', "renaming a suffix to itself")
+        # near miss: source's first label is the tail of a real label (not on a label boundary)
+        if len(q[0]) >= 2:
+            near = wire([q[0][1:]] + q[1:])
+            case("%s_nearmiss" % skn, skn, near, tgt_long, True, 'rotate' if tier != 'quick' or skn != 'r_mx_soa' else 'quick', "partial-label near miss: the source starts in the middle of a label")
+        case("%s_exact_sfxname" % skn, skn, suf, tgt_short, False, 'rotate', "exact mode with a source that is only a suffix of most names")
+    # overflow: a 253-byte name + a target longer than the source
+    pk = byname['r_name255_via_ptr']
+    b = concrete_bytes(pk)
+    q = expand_name(b, 12)
+    case("r_name255_via_ptr_overflow", 'r_name255_via_ptr', wire(q[-1:]), wire([q[-1] + b"xx"]), True, 'thorough', "suffix rename that makes a 255-byte name 257 bytes long: must fail")
+    case("r_name255_via_ptr_fits", 'r_name255_via_ptr', wire(q[-1:]), wire([q[-1][:-1]]), True, 'thorough', "suffix rename that shortens maximal names by one byte")
+
+
+def emit_rename():
+    out = ["// @generated by gen/skeletons.py - do not edit\nuse crate::p_rename::RnCase;\nuse crate::skel_gen;\n\n"]
+    for c in RN:
+        nm = "Rn" + "".join(x.capitalize() for x in c['name'].split("_"))
+        c['type'] = nm
+        out.append("/// %s on skeleton %s\npub struct %s;\nimpl RnCase for %s {\n    type K = skel_gen::%s;\n" % (c['what'], c['sk'], nm, nm, camel(c['sk'])))
+        out.append("    const SOURCE: &'static [u8] = &[%s];\n" % ", ".join(str(x) for x in c['source']))
+        out.append("    const TARGET: &'static [u8] = &[%s];\n" % ", ".join(str(x) for x in c['target']))
+        out.append("    const SUFFIX: bool = %s;\n}\n\n" % ("true" if c['suffix'] else "false"))
+    open(os.path.join(VERIF, "harness/src/rn_gen.rs"), "w").write("".join(out))
 
 
 def camel(n):
@@ -545,6 +671,11 @@ def emit():
         for i in range(0, n, 12):
             out.append("            " + ", ".join(rust_cell(c) for c in p.cells[i:i + 12]) + ",\n")
         out.append("        ];\n        p.to_vec()\n    }\n")
+        out.append("    fn build_fl<S: Src>(s: &mut S) -> Vec<u8> {\n")
+        out.append("        let p: [u8; %d] = [\n" % n)
+        for i in range(0, n, 12):
+            out.append("            " + ", ".join(rust_cell(c, i + j, False, True) for j, c in enumerate(p.cells[i:i + 12])) + ",\n")
+        out.append("        ];\n        p.to_vec()\n    }\n")
         out.append("    fn build_cl<S: Src>(s: &mut S) -> Vec<u8> {\n")
         out.append("        let p: [u8; %d] = [\n" % n)
         for i in range(0, n, 12):
@@ -565,7 +696,7 @@ def families():
                         bound=bound + " | skeleton %s (%d bytes, %d symbolic): %s" % (
                             pk.name, len(pk.cells), sum(1 for c in pk.cells if c[0] != 'c'), pk.desc),
                         funcs=funcs, assume=list(assume), unwind=unwind or (len(pk.cells) + 10),
-                        fs=fs or max(64, len(pk.cells) + 40)))
+                        fs=fs or max(300, len(pk.cells) + 40)))
 
     quick_parse = {'q_plain', 'q_opt2', 'q_hdrptr', 'r_a_aaaa', 'r_cname_chain', 'r_optmid', 'r_mx_soa', 'r_dname_txt_priv',
                    'h_selfptr', 'h_ptr_root', 'h_trailing', 'h_count_plus', 'h_a_rdlen5', 'h_trunc_rrhdr', 'h_ctrl_char',
@@ -599,19 +730,166 @@ def families():
                                    "TypedIterable::{name,copy_raw_name,rr_type,rr_class,current_section}", "RdataIterable::{rr_ttl,rr_rdlen,rr_rd,rr_ip}",
                                    "Compress::raw_name_to_str", "Compress::copy_uncompressed_name", "RRIterator::skip_name"],
                             assume=["parse errors are reported as failed checks and not explored further (the skeleton is well-formed by construction)"],
-                            unwind=len(p.cells) + 10, fs=max(64, len(p.cells) + 40)))
+                            unwind=len(p.cells) + 10, fs=max(300, len(p.cells) + 40)))
+    quick_sum = {'q_plain', 'q_opt0', 'q_opt2', 'q_hdrptr', 'q_root', 'r_a_aaaa', 'r_optmid', 'r_ns_add_optlast'}
+    for p in SK:
+        if not p.accept or 'edge' in p.tags or 'long' in p.tags:
+            continue
+        tier = 'quick' if p.name in quick_sum else 'rotate'
+        add("sum", "p_summary::header_edns", p, ["C04"], tier, 30, 600,
+            "tid/opcode/rcode/is_response/flags/dnssec/ext_rcode/edns_version/edns_count/max_payload on one accepted skeleton x all ids, all 15 non-QR flag bits, all OPT fields, all payload",
+            ["DNSSector::parse", "DNSSector::parse_opt", "ParsedPacket::{tid,opcode,rcode,is_response,flags,dnssec,max_payload}"],
+            assume=["parse errors are reported as failed checks and not explored further (the skeleton is well-formed by construction)"])
+        for order in (0, 1):
+            fam.append(dict(name="quest%d_%s" % (order, p.name), body="p_summary::question::<_, skel_gen::%s, %d>" % (camel(p.name), order),
+                            props=["C04"], tier=tier if order == 0 or p.name in ('q_hdrptr', 'r_a_aaaa') else 'rotate', est=40, timeout=600,
+                            bound="question()/qtype_qclass() and question_raw0()/question_raw() in call order %d (0: text first / cache cold, 1: raw first / cache warm) | skeleton %s: %s; label characters concrete, type/class/payload symbolic" % (order, p.name, p.desc),
+                            funcs=["ParsedPacket::question", "ParsedPacket::question_raw0", "ParsedPacket::question_raw", "ParsedPacket::qtype_qclass", "Compress::copy_uncompressed_name", "Compress::raw_name_to_str", "Compress::raw_name_len"],
+                            assume=["parse errors are reported as failed checks"], unwind=len(p.cells) + 10, fs=max(300, len(p.cells) + 40)))
+    quick_unc = {'q_hdrptr', 'r_cname_chain', 'r_mx_soa', 'r_optmid', 'r_ptr_ptr', 'r_dname_txt_priv'}
+    for p in SK:
+        if not p.accept or 'edge' in p.tags or 'long' in p.tags:
+            continue
+        tier = 'quick' if p.name in quick_unc else 'rotate'
+        nrec = len(p.recs)
+        modes = [(0, 'content', tier), (1, 'stable', 'rotate' if p.name not in ('r_mx_soa',) else tier)]
+        for i in range(nrec + 1):
+            modes.append((2 + i, 'b%d' % i, tier if (p.name in ('r_mx_soa', 'r_optmid') and i in (1, nrec)) else 'thorough'))
+        for m, mn, t in modes:
+            fam.append(dict(name="unc_%s_%s" % (mn, p.name), body="p_uncompress::uncompress::<_, skel_gen::%s, %d>" % (camel(p.name), m),
+                            props=["C05"], tier=t, est=90, timeout=900,
+                            bound="Compress::uncompress, aspect '%s' (content: identical decoded records, pointer-free; stable: output accepted and second decompression identical; bN: boundary N carried across) | skeleton %s (%d bytes): %s; all label characters (within the parser's alphabet) and payload symbolic" % (mn, p.name, len(p.cells), p.desc),
+                            funcs=["Compress::uncompress", "Compress::uncompress_with_previous_offset", "Compress::uncompress_rdata", "Compress::copy_uncompressed_name", "DNSSector::parse", "iterators"],
+                            assume=["library errors are reported as failed checks and not explored further (every operation must succeed on an accepted packet)"],
+                            unwind=2 * len(p.cells) + 10, fs=max(300, 2 * len(p.cells) + 40)))
+    byname = {p.name: p for p in SK}
+    for c in RN:
+        pk = byname[c['sk']]
+        for m, mn in ((0, 'fn'), (1, 'obj')):
+            t = c['tier'] if m == 0 else ('quick' if c['name'] in ('r_mx_soa_sfx_long', 'r_optmid_sfx_long') else ('thorough' if c['tier'] == 'thorough' else 'rotate'))
+            fam.append(dict(name="rn_%s_%s" % (mn, c['name']), body="p_rename::rename::<_, rn_gen::%s, %d>" % (c['type'], m),
+                            props=["C07"] if m == 0 else ["C07", "C08"], tier=t, est=200, timeout=1500 if t != 'thorough' else 3000, mem_gb=40,
+                            bound="%s: %s | source %s target %s %s | skeleton %s (%d bytes): %s; label characters concrete, all other payload symbolic" % (
+                                "Renamer::rename_with_raw_names" if m == 0 else "ParsedPacket::rename_with_raw_names (+ object view vs fresh parse)",
+                                c['what'], c['source'].hex(), c['target'].hex(), "suffix mode" if c['suffix'] else "exact mode", pk.name, len(pk.cells), pk.desc),
+                            funcs=["Renamer::rename_with_raw_names", "Renamer::replace_raw", "Renamer::copy_with_replaced_name", "Compress::copy_compressed_name_with_base_offset", "SuffixDict::insert", "ParsedPacket::rename_with_raw_names", "ParsedPacket::copy_raw_edns_section", "DNSSector::parse"],
+                            assume=["library errors are reported as failed checks unless the oracle says the rename must fail"],
+                            unwind=max(2 * len(pk.cells) + 10, 80), fs=max(300, 3 * len(pk.cells))))
+    # ---------------- mutations (C08 C09 C10 C11)
+    MUT_FUNCS = ["TypedIterable::set_raw_name", "TypedIterable::resize_rr", "TypedIterable::delete", "TypedIterable::current_section", "RRIterator::recompute",
+                 "ParsedPacket::insert_rr", "ParsedPacket::rrcount_inc", "ParsedPacket::rrcount_dec", "ParsedPacket::recompute", "ParsedPacket::question_raw0",
+                 "RdataIterable::set_rr_ttl", "RdataIterable::set_rr_ip", "DNSIterable::uncompress", "Compress::uncompress_with_previous_offset", "DNSSector::parse",
+                 "ResponseIterator::next", "QuestionIterator::next"]
+    SECN = {0: 'q', 1: 'an', 2: 'ns', 3: 'ar'}
+
+    def mut(name, body, sk, props, tier, what, est=200, timeout=1500):
+        pk = byname[sk]
+        fam.append(dict(name=name, body=body, props=props, tier=tier, est=est, timeout=timeout, mem_gb=32,
+                        bound="%s | skeleton %s (%d bytes): %s; label characters symbolic within the parser's alphabet unless stated, arguments and all other payload symbolic" % (what, pk.name, len(pk.cells), pk.desc),
+                        funcs=MUT_FUNCS, assume=["library errors are reported as failed checks for operations that must succeed; error paths are explored for operations that must fail"],
+                        unwind=max(2 * len(pk.cells) + 20, 90), fs=max(300, 3 * len(pk.cells))))
+
+    for sk, sec, idx, tier in (('r_a_aaaa', 1, 0, 'quick'), ('r_three_a', 1, 1, 'rotate'), ('r_all_sections', 2, 0, 'rotate'), ('r_all_sections', 3, 0, 'quick'),
+                               ('r_optmid', 3, 1, 'rotate'), ('r_mx_soa', 1, 0, 'rotate')):
+        mut("ttl_%s_%s%d" % (sk, SECN[sec], idx), "p_mutate::set_ttl::<_, skel_gen::%s, %d, %d>" % (camel(sk), sec, idx), sk, ["C08", "C09"], tier,
+            "set_rr_ttl(any u32) on record %d of section %s: only the TTL field changes; view == fresh parse" % (idx, SECN[sec]), est=100)
+    for sk, sec, idx, tier in (('r_a_aaaa', 1, 0, 'quick'), ('r_a_aaaa', 1, 1, 'quick'), ('r_all_sections', 2, 0, 'rotate'), ('r_optmid', 3, 1, 'rotate')):
+        mut("ip_%s_%s%d" % (sk, SECN[sec], idx), "p_mutate::set_ip::<_, skel_gen::%s, %d, %d>" % (camel(sk), sec, idx), sk, ["C08", "C09", "C10"], tier,
+            "set_rr_ip(any V4 or V6 address) on record %d of section %s: address bytes only; wrong family / non-address record refused without change" % (idx, SECN[sec]), est=100)
+    NAMES = (('short', 'Nm<1, 0, false>'), ('equal', 'Nm<5, 3, false>'), ('long', 'Nm<9, 7, false>'))
+    for sk, sec, idx, tiers in (('r_a_aaaa', 1, 0, ('quick', 'rotate', 'quick')), ('r_a_aaaa', 1, 1, ('rotate', 'rotate', 'rotate')),
+                                ('r_three_a', 1, 1, ('rotate', 'rotate', 'quick')), ('r_three_a', 1, 2, ('rotate', 'rotate', 'rotate')),
+                                ('r_all_sections', 2, 0, ('rotate', 'rotate', 'rotate')), ('r_all_sections', 3, 0, ('quick', 'rotate', 'quick')),
+                                ('r_optmid', 3, 0, ('rotate', 'rotate', 'quick')), ('r_optmid', 3, 1, ('rotate', 'rotate', 'rotate')),
+                                ('q_plain', 0, 0, ('rotate', 'rotate', 'quick')), ('r_a_aaaa', 0, 0, ('quick', 'rotate', 'rotate')),
+                                ('r_nocomp', 1, 0, ('rotate', 'rotate', 'rotate')), ('r_cname_chain', 1, 0, ('rotate', 'rotate', 'rotate'))):
+        for (nn, nt), tier in zip(NAMES, tiers):
+            mut("name_%s_%s_%s%d" % (nn, sk, SECN[sec], idx), "p_mutate::set_name::<_, skel_gen::%s, p_mutate::%s, %d, %d>" % (camel(sk), nt, sec, idx), sk, ["C08", "C09"], tier,
+                "set_raw_name(%s new name, label bytes symbolic within the parser's alphabet) on record %d of section %s: owner replaced, nothing else; cursor still designates the record; view == fresh parse" % (nn, idx, SECN[sec]))
+    mut("name_anybytes_r_a_aaaa_an0", "p_mutate::set_name::<_, skel_gen::SkRAAaaa, p_mutate::Nm<2, 0, true>, 1, 0>", 'r_a_aaaa', ["C08"], 'quick',
+        "set_raw_name with a 2-byte label of ANY byte values on answer 0: a successful call must leave bytes the parser accepts")
+    for bad, bn in ((0, 'label64'), (1, 'len256'), (2, 'truncated'), (3, 'pointer'), (4, 'empty')):
+        mut("namebad_%s_r_a_aaaa_an0" % bn, "p_mutate::set_name_bad::<_, skel_gen::SkRAAaaa, 1, 0, %d>" % bad, 'r_a_aaaa', ["C10"], 'quick' if bad in (0, 2, 3) else 'rotate',
+            "set_raw_name with an ill-formed name (%s) on answer 0: refused; same decoded message; view == fresh parse (label characters concrete)" % bn)
+    for sk, sec, idx, tier in (('r_a_aaaa', 1, 0, 'quick'), ('r_a_aaaa', 1, 1, 'rotate'), ('r_three_a', 1, 1, 'quick'), ('r_all_sections', 1, 0, 'quick'),
+                               ('r_all_sections', 2, 0, 'rotate'), ('r_all_sections', 3, 0, 'rotate'), ('r_optmid', 3, 0, 'quick'), ('r_optmid', 3, 1, 'rotate'),
+                               ('q_plain', 0, 0, 'rotate'), ('r_a_aaaa', 0, 0, 'rotate'), ('r_cname_chain', 1, 0, 'rotate')):
+        mut("del_%s_%s%d" % (sk, SECN[sec], idx), "p_mutate::delete::<_, skel_gen::%s, %d, %d>" % (camel(sk), sec, idx), sk, ["C08", "C09", "C11"], tier,
+            "delete record %d of section %s, delete again through the tombstone (void record, no change), advance: only that record and its count go; view == fresh parse" % (idx, SECN[sec]))
+    for sk, sec, tier in (('r_a_aaaa', 1, 'quick'), ('r_a_aaaa', 2, 'rotate'), ('r_a_aaaa', 3, 'rotate'), ('r_all_sections', 1, 'rotate'), ('r_all_sections', 2, 'quick'),
+                          ('r_all_sections', 3, 'rotate'), ('r_optmid', 2, 'quick'), ('q_opt2', 3, 'rotate'), ('r_nocomp', 1, 'rotate')):
+        mut("ins_%s_%s" % (sk, SECN[sec]), "p_mutate::insert::<_, skel_gen::%s, %d>" % (camel(sk), sec), sk, ["C08", "C09"], tier,
+            "insert_rr(A record, any TTL and address) into section %s: appended at the end of the section, nothing else changes; view == fresh parse" % SECN[sec])
+    mut("ins_second_question_r_a_aaaa", "p_mutate::insert::<_, skel_gen::SkRAAaaa, 0>", 'r_a_aaaa', ["C10"], 'quick',
+        "insert_rr of a second question: refused; same decoded message; view == fresh parse")
+    mut("ins_second_question_q_plain", "p_mutate::insert::<_, skel_gen::SkQPlain, 0>", 'q_plain', ["C10"], 'rotate',
+        "insert_rr of a second question into a query: refused; same decoded message; view == fresh parse")
+    for sk, tier in (('q_plain', 'quick'), ('r_a_aaaa', 'rotate')):
+        mut("cacheq_%s" % sk, "p_mutate::cache_then_set_question::<_, skel_gen::%s, p_mutate::Nm<4, 2, false>>" % camel(sk), sk, ["C08"], tier,
+            "question_raw0() (fills the cache) then set_raw_name on the question: the cached question follows the change")
+    for sk, sec, idx, tier in (('r_a_aaaa', 1, 0, 'quick'), ('r_a_aaaa', 1, 1, 'rotate'), ('r_three_a', 1, 1, 'rotate'), ('r_all_sections', 3, 0, 'rotate'), ('r_cname_chain', 1, 1, 'rotate')):
+        mut("itunc_%s_%s%d" % (sk, SECN[sec], idx), "p_mutate::it_uncompress::<_, skel_gen::%s, %d, %d>" % (camel(sk), sec, idx), sk, ["C08"], tier,
+            "DNSIterable::uncompress() through the cursor on record %d of section %s: the cursor still designates and reads that record; view == fresh parse" % (idx, SECN[sec]))
+    for sk, tier in (('r_all_sections', 'quick'), ('q_opt2', 'rotate')):
+        mut("hdrops_%s" % sk, "p_mutate::header_ops::<_, skel_gen::%s, false>" % camel(sk), sk, ["C08"], tier,
+            "set_tid/set_flags/set_rcode/set_opcode with any arguments: only id and flags change; view == fresh parse", est=100)
+    mut("recompute_r_all_sections", "p_mutate::header_ops::<_, skel_gen::SkRAllSections, true>", 'r_all_sections', ["C08"], 'quick',
+        "header setters then ParsedPacket::recompute() on a packet that still holds compression pointers; view == fresh parse, flag 'may contain pointers' consistent", est=100)
+    mut("recompute_r_nocomp", "p_mutate::header_ops::<_, skel_gen::SkRNocomp, true>", 'r_nocomp', ["C08"], 'rotate',
+        "header setters then ParsedPacket::recompute() on a pointer-free packet; view == fresh parse", est=100)
+    for sk, sec, masks, qmasks in (('r_three_a', 1, range(8), (2, 5, 7)), ('r_a_aaaa', 1, (1, 2, 3), (3,)), ('r_optmid', 3, range(4), (1, 3)),
+                                   ('r_all_sections', 3, (0, 1), (1,)), ('r_all_sections', 2, (1,), ())):
+        for m in masks:
+            mut("delwalk_%s_%s_m%d" % (sk, SECN[sec], m), "p_mutate::delete_walk::<_, skel_gen::%s, %d, %d>" % (camel(sk), sec, m), sk, ["C11", "C08"] if m in qmasks else ["C11"],
+                'quick' if m in qmasks else 'rotate',
+                "walk section %s deleting the records selected by mask %s (documented protocol: delete, second delete must be void, next): terminates within n(n+1)+2 steps, survivors exact and in order; view == fresh parse" % (SECN[sec], bin(m)), est=300, timeout=1800)
+
+    for p in SK:
+        if 'nocomp' not in p.tags:
+            continue
+        for m, mn in ((0, 'msg'), (1, 'rt')):
+            fam.append(dict(name="cmp_%s_%s" % (mn, p.name), body="p_compress::compress::<_, skel_gen::%s, %d>" % (camel(p.name), m),
+                            props=["C06"], tier='quick' if (m == 0 or p.name in ('r_nocomp2',)) else 'rotate', est=120, timeout=1200, mem_gb=40,
+                            bound="Compress::compress, aspect '%s' (msg: accepted, not longer, same decoded message; rt: uncompress(compress(p)) equals p up to case) | pointer-free skeleton %s (%d bytes): %s; label characters concrete, all other payload symbolic" % (mn, p.name, len(p.cells), p.desc),
+                            funcs=["Compress::compress", "Compress::compress_rdata", "Compress::copy_compressed_name_with_base_offset", "SuffixDict::insert", "SuffixDict::raw_names_eq_ignore_case", "Compress::raw_name_len_after_decompression", "DNSSector::parse", "Compress::uncompress"],
+                            assume=["library errors are reported as failed checks and not explored further"],
+                            unwind=2 * len(p.cells) + 10, fs=max(300, 2 * len(p.cells) + 40)))
     return fam
 
 
 def emit_registry(fam):
-    out = ["// @generated by gen/skeletons.py - do not edit\nharnesses! {\n"]
+    # group by (set of properties, thorough?) so that a build for one property and tier
+    # compiles only the harnesses it can run (cargo features c01..c18, thorough)
+    groups = {}
     for f in fam:
-        out.append("    #[kani::unwind(%d)] %s => %s;\n" % (f['unwind'], f['name'], f['body']))
-    out.append("}\n")
+        key = (tuple(sorted(f['props'])), f['tier'] == 'thorough')
+        groups.setdefault(key, []).append(f)
+    out = ["// @generated by gen/skeletons.py - do not edit\n"]
+    mods = []
+    for gi, (key, fs) in enumerate(sorted(groups.items())):
+        props, thorough = key
+        mod = "g%d" % gi
+        cfg = "any(%s)" % ", ".join('feature = "%s"' % p.lower() for p in props)
+        if thorough:
+            cfg = 'all(feature = "thorough", %s)' % cfg
+        mods.append((mod, cfg))
+        out.append("#[cfg(%s)]\npub mod %s {\n    use super::*;\n    harnesses! {\n" % (cfg, mod))
+        for f in fs:
+            out.append("        #[kani::unwind(%d)] %s => %s;\n" % (f['unwind'], f['name'], f['body']))
+            f['path'] = 'registry::gen::%s::proofs::' % mod
+        out.append("    }\n}\n")
+    out.append("pub fn lookup(name: &str) -> Option<Body> {\n")
+    for mod, cfg in mods:
+        out.append("    #[cfg(%s)]\n    if let Some(b) = %s::lookup(name) { return Some(b); }\n" % (cfg, mod))
+    out.append("    None\n}\npub fn lookup_sample(name: &str) -> Option<SampleBody> {\n")
+    for mod, cfg in mods:
+        out.append("    #[cfg(%s)]\n    if let Some(b) = %s::lookup_sample(name) { return Some(b); }\n" % (cfg, mod))
+    out.append("    None\n}\npub fn names() -> Vec<&'static str> {\n    let mut v: Vec<&'static str> = Vec::new();\n")
+    for mod, cfg in mods:
+        out.append("    #[cfg(%s)]\n    v.extend_from_slice(%s::NAMES);\n" % (cfg, mod))
+    out.append("    v\n}\n")
     open(os.path.join(VERIF, "harness/src/registry_gen.rs"), "w").write("".join(out))
     js = {f['name']: {k: v for k, v in f.items() if k not in ('name', 'body')} for f in fam}
-    for v in js.values():
-        v['path'] = 'registry::gen::proofs::'
     json.dump(js, open(os.path.join(VERIF, "bin/harness_gen.json"), "w"), indent=1, sort_keys=True)
 
 
@@ -622,6 +900,8 @@ def main():
     names = [p.name for p in SK]
     assert len(names) == len(set(names)), "duplicate skeleton names"
     emit()
+    build_rename_cases()
+    emit_rename()
     fam = families()
     emit_registry(fam)
     print("skeletons: %d (valid %d, hostile %d); generated harnesses: %d" % (
